@@ -72,10 +72,12 @@ class native:
         if CTX.mode == 'sym':
             self.nt = NoTracing()
             self.nt.__enter__()
+            models.NATIVE_DEPTH[0] += 1
         return self
 
     def __exit__(self, *a):
         if self.nt is not None:
+            models.NATIVE_DEPTH[0] -= 1
             return self.nt.__exit__(*a)
         return False
 
